@@ -7,6 +7,7 @@ exactly the node that disappears.
 import TlxVerif.Model.C01Erase
 import TlxVerif.Proofs.C01Main
 import TlxVerif.Proofs.C01EraseA
+import TlxVerif.Proofs.C01EraseF
 namespace TlxVerif.C01
 
 variable {K V : Type}
@@ -29,6 +30,12 @@ structure RebalanceOut (p : Params K) (h : Nat) (keys1 : List K) (kids1 : List (
   free_le : lf + inf ≤ 1
   lcnt : sumMap (leafCount h) kids3 + lf = sumMap (leafCount h) kids1
   icnt : sumMap (innerCount h) kids3 + inf = sumMap (innerCount h) kids1
+
+/-- the separator layer of `applyFix` + `fixMerge` -/
+def SepPart (p : Params K) (h : Nat) (keys1 : List K) (kids1 : List (BNode K V)) (keys3 : List K)
+    (kids3 : List (BNode K V)) : Prop :=
+  StrictWeak p.lt → SepSeq p h keys1 kids1 → (∀ c ∈ kids1, SepOk p h c) →
+    SepSeq p h keys3 kids3 ∧ ∀ c ∈ kids3, SepOk p h c
 
 /-- two adjacent children `X` (index `a`) and `Y` (index `a+1`) with their separator `keys[a]` -/
 theorem pair_decomp {α β : Type} (kids : List α) (keys : List β) (a : Nat) (X Y : α)
@@ -112,7 +119,8 @@ theorem rebalance_leaf (p : Params K) (pv : p.Valid) (keys1 : List K) (kids1 : L
     (hfull : p.leafMin ≤ C.slotuse → f = .none)
     (hunder : C.slotuse < p.leafMin → FixOk p.leafMin kids1 slot f) :
     ∃ fx keys3 kids3 lf inf, applyFix f keys1 kids1 slot = some fx ∧ fx.lastUp = none ∧
-      fixMerge 1 fx slot = some (keys3, kids3, lf, inf) ∧ RebalanceOut p 0 keys1 kids1 keys3 kids3 lf inf := by
+      fixMerge 1 fx slot = some (keys3, kids3, lf, inf) ∧ RebalanceOut p 0 keys1 kids1 keys3 kids3 lf inf ∧
+      SepPart p 0 keys1 kids1 keys3 kids3 := by
   have hl4 := pv.leaf4
   have hmin : 2 ≤ p.leafMin := by simp [Params.leafMin]; omega
   have hmin2 : 2 * p.leafMin ≤ p.leafMax := by simp [Params.leafMin]; omega
@@ -122,7 +130,7 @@ theorem rebalance_leaf (p : Params K) (pv : p.Valid) (keys1 : List K) (kids1 : L
   · -- no underflow: nothing to do
     have := hfull hu
     subst this
-    refine ⟨_, keys1, kids1, 0, 0, rfl, rfl, rfl, ⟨hk, ?_, rfl, rfl, by omega, rfl, rfl⟩⟩
+    refine ⟨_, keys1, kids1, 0, 0, rfl, rfl, rfl, ⟨hk, ?_, rfl, rfl, by omega, rfl, rfl⟩, fun _ a b => ⟨a, b⟩⟩
     intro x hx
     obtain ⟨i, hi, rfl⟩ := List.getElem_of_mem hx
     by_cases his : i = slot
@@ -151,7 +159,7 @@ theorem rebalance_leaf (p : Params K) (pv : p.Valid) (keys1 : List K) (kids1 : L
       have e2 : (A ++ BNode.leaf lx :: BNode.leaf c :: B)[A.length + 1]? = some (.leaf c) := by simp
       obtain ⟨e, he⟩ := getLast?_isSome_of_length_pos (lx ++ c) (by simp; omega)
       refine ⟨{ keys := KA ++ sep :: KB, kids := A ++ .leaf (lx ++ c) :: .leaf [] :: B, fixmerge := true },
-        (KA ++ KB).set A.length e.1, A ++ .leaf (lx ++ c) :: B, 1, 0, ?_, rfl, ?_, ?_⟩
+        (KA ++ KB).set A.length e.1, A ++ .leaf (lx ++ c) :: B, 1, 0, ?_, rfl, ?_, ?_, ?_⟩
       · simp only [applyFix, Nat.add_one_ne_zero, if_false, e1, e2]
         simp
       · rw [fixMerge_pair 1 A B KA KB sep _ _ (A.length + 1) (Or.inr rfl)
@@ -168,6 +176,17 @@ theorem rebalance_leaf (p : Params K) (pv : p.Valid) (keys1 : List K) (kids1 : L
           · exact hB' x hx
         · simp only [List.length_append, List.length_cons, List.length_set]; omega
         · simp [sumMap, leafCount]; omega
+      · intro sw hss hso
+        have hYne : c ≠ [] := by intro hh; subst hh; simp at hclen; omega
+        have h1 := sep_after_merge p 0 A B KA KB sep (.leaf lx) (.leaf c) (.leaf (lx ++ c)) hKA'
+          (by simp only [flatten]; exact getLast?_append_of_ne_nil lx c hYne) hss
+        refine ⟨sep_after_merge_refresh p sw 0 A B KA KB (.leaf (lx ++ c)) e hKA' (by simpa [flatten] using he) h1, ?_⟩
+        intro x hx
+        simp only [List.mem_append, List.mem_cons] at hx
+        rcases hx with hx | hx | hx
+        · exact hso x (by simp [hx])
+        · subst hx; simp [SepOk]
+        · exact hso x (by simp [hx])
     | mergeR =>
       obtain ⟨R, hR, hRu⟩ := hfo
       obtain ⟨rx, rfl, hr1, hr2⟩ := shape0_leaf (hsh (slot + 1) R hR (by omega))
@@ -182,7 +201,7 @@ theorem rebalance_leaf (p : Params K) (pv : p.Valid) (keys1 : List K) (kids1 : L
       have e2 : (A ++ BNode.leaf c :: BNode.leaf rx :: B)[A.length + 1]? = some (.leaf rx) := by simp
       obtain ⟨e, he⟩ := getLast?_isSome_of_length_pos (c ++ rx) (by simp; omega)
       refine ⟨{ keys := KA ++ sep :: KB, kids := A ++ .leaf (c ++ rx) :: .leaf [] :: B, fixmerge := true },
-        (KA ++ KB).set A.length e.1, A ++ .leaf (c ++ rx) :: B, 1, 0, ?_, rfl, ?_, ?_⟩
+        (KA ++ KB).set A.length e.1, A ++ .leaf (c ++ rx) :: B, 1, 0, ?_, rfl, ?_, ?_, ?_⟩
       · simp only [applyFix, e1, e2]
         simp
       · rw [fixMerge_pair 1 A B KA KB sep _ _ A.length (Or.inl rfl)
@@ -199,6 +218,17 @@ theorem rebalance_leaf (p : Params K) (pv : p.Valid) (keys1 : List K) (kids1 : L
           · exact hB' x hx
         · simp only [List.length_append, List.length_cons, List.length_set]; omega
         · simp [sumMap, leafCount]; omega
+      · intro sw hss hso
+        have hYne : rx ≠ [] := by intro hh; subst hh; simp at hr1; omega
+        have h1 := sep_after_merge p 0 A B KA KB sep (.leaf c) (.leaf rx) (.leaf (c ++ rx)) hKA
+          (by simp only [flatten]; exact getLast?_append_of_ne_nil c rx hYne) hss
+        refine ⟨sep_after_merge_refresh p sw 0 A B KA KB (.leaf (c ++ rx)) e hKA (by simpa [flatten] using he) h1, ?_⟩
+        intro x hx
+        simp only [List.mem_append, List.mem_cons] at hx
+        rcases hx with hx | hx | hx
+        · exact hso x (by simp [hx])
+        · subst hx; simp [SepOk]
+        · exact hso x (by simp [hx])
     | shiftL =>
       obtain ⟨R, hR, hRu⟩ := hfo
       obtain ⟨rx, rfl, hr1, hr2⟩ := shape0_leaf (hsh (slot + 1) R hR (by omega))
@@ -216,7 +246,7 @@ theorem rebalance_leaf (p : Params K) (pv : p.Valid) (keys1 : List K) (kids1 : L
         simp only [List.length_append, List.length_cons]; omega
       refine ⟨{ keys := (KA ++ sep :: KB).set A.length e.1,
                 kids := A ++ .leaf (c ++ rx.take ((rx.length - c.length) / 2)) :: .leaf (rx.drop ((rx.length - c.length) / 2)) :: B },
-        _, _, 0, 0, ?_, rfl, rfl, ?_⟩
+        _, _, 0, 0, ?_, rfl, rfl, ?_, ?_⟩
       · simp only [applyFix, e1, e2, he, hlt, if_true]
         simp
       · obtain ⟨hA', hB'⟩ := shape_around hsh (Or.inl rfl)
@@ -232,6 +262,17 @@ theorem rebalance_leaf (p : Params K) (pv : p.Valid) (keys1 : List K) (kids1 : L
         · simp only [List.flatMap_append, List.flatMap_cons, flatten, List.append_assoc]
           rw [← List.append_assoc (List.take _ rx), List.take_append_drop]
         · simp only [List.length_set]; omega
+      · intro sw hss hso
+        refine ⟨sep_after_shift p 0 A B KA KB sep e.1 (.leaf c) (.leaf rx) _ _ hKA
+          (sepFits_refl_last p sw 0 _ e (by simpa [flatten] using he))
+          (by simp only [flatten]; rw [List.getLast?_drop, if_neg (by omega)]) hss, ?_⟩
+        intro x hx
+        simp only [List.mem_append, List.mem_cons] at hx
+        rcases hx with hx | hx | hx | hx
+        · exact hso x (by simp [hx])
+        · subst hx; simp [SepOk]
+        · subst hx; simp [SepOk]
+        · exact hso x (by simp [hx])
     | shiftR =>
       obtain ⟨hs0, L, hL, hLu⟩ := hfo
       obtain ⟨lx, rfl, hl1, hl2⟩ := shape0_leaf (hsh (slot - 1) L hL (by omega))
@@ -248,7 +289,7 @@ theorem rebalance_leaf (p : Params K) (pv : p.Valid) (keys1 : List K) (kids1 : L
       refine ⟨{ keys := (KA ++ sep :: KB).set (A.length + 1 - 1) e.1,
                 kids := A ++ .leaf (lx.take (lx.length - (lx.length - c.length) / 2)) ::
                   .leaf (lx.drop (lx.length - (lx.length - c.length) / 2) ++ c) :: B },
-        _, _, 0, 0, ?_, rfl, rfl, ?_⟩
+        _, _, 0, 0, ?_, rfl, rfl, ?_, ?_⟩
       · simp only [applyFix, Nat.add_one_ne_zero, if_false, e1, e2, he]
         simp
       · obtain ⟨hA', hB'⟩ := shape_around hsh (Or.inr rfl)
@@ -264,6 +305,23 @@ theorem rebalance_leaf (p : Params K) (pv : p.Valid) (keys1 : List K) (kids1 : L
         · simp only [List.flatMap_append, List.flatMap_cons, flatten, List.append_assoc]
           rw [← List.append_assoc (List.take _ lx), List.take_append_drop]
         · simp only [List.length_set]; omega
+
+
+      · intro sw hss hso
+        have hYne : c ≠ [] := by intro hh; subst hh; simp at hclen; omega
+        have hKA' : KA.length = A.length := by omega
+        have := sep_after_shift p 0 A B KA KB sep e.1 (.leaf lx) (.leaf c) (.leaf (lx.take (lx.length - (lx.length - c.length) / 2)))
+          (.leaf (lx.drop (lx.length - (lx.length - c.length) / 2) ++ c)) hKA'
+          (sepFits_refl_last p sw 0 _ e (by simpa [flatten] using he))
+          (by simp only [flatten]; exact getLast?_append_of_ne_nil _ c hYne) hss
+        refine ⟨by simpa using this, ?_⟩
+        intro x hx
+        simp only [List.mem_append, List.mem_cons] at hx
+        rcases hx with hx | hx | hx | hx
+        · exact hso x (by simp [hx])
+        · subst hx; simp [SepOk]
+        · subst hx; simp [SepOk]
+        · exact hso x (by simp [hx])
 
 theorem shapeS_inner {p : Params K} {h : Nat} {c : BNode K V} (hs : Shape p (h + 1) c) :
     ∃ l ks kids, c = .inner l ks kids ∧ l = h + 1 ∧ kids.length = ks.length + 1 ∧ p.innerMin ≤ ks.length ∧
@@ -291,7 +349,8 @@ theorem rebalance_inner (p : Params K) (pv : p.Valid) (h l : Nat) (hl : l ≠ 1)
     (hfull : p.innerMin ≤ C.slotuse → f = .none)
     (hunder : C.slotuse < p.innerMin → FixOk p.innerMin kids1 slot f) :
     ∃ fx keys3 kids3 lf inf, applyFix f keys1 kids1 slot = some fx ∧ fx.lastUp = none ∧
-      fixMerge l fx slot = some (keys3, kids3, lf, inf) ∧ RebalanceOut p (h + 1) keys1 kids1 keys3 kids3 lf inf := by
+      fixMerge l fx slot = some (keys3, kids3, lf, inf) ∧ RebalanceOut p (h + 1) keys1 kids1 keys3 kids3 lf inf ∧
+      SepPart p (h + 1) keys1 kids1 keys3 kids3 := by
   have hi4 := pv.inner4
   have hmin : 2 ≤ p.innerMin := by simp [Params.innerMin]; omega
   have hmin2 : 2 * p.innerMin ≤ p.innerMax := by simp [Params.innerMin]; omega
@@ -300,7 +359,7 @@ theorem rebalance_inner (p : Params K) (pv : p.Valid) (h l : Nat) (hl : l ≠ 1)
   by_cases hu : p.innerMin ≤ ck.length
   · have := hfull hu
     subst this
-    refine ⟨_, keys1, kids1, 0, 0, rfl, rfl, by simp [fixMerge], ⟨hk, ?_, rfl, rfl, by omega, rfl, rfl⟩⟩
+    refine ⟨_, keys1, kids1, 0, 0, rfl, rfl, by simp [fixMerge], ⟨hk, ?_, rfl, rfl, by omega, rfl, rfl⟩, fun _ a b => ⟨a, b⟩⟩
     intro x hx
     obtain ⟨i, hi, rfl⟩ := List.getElem_of_mem hx
     by_cases his : i = slot
@@ -330,7 +389,7 @@ theorem rebalance_inner (p : Params K) (pv : p.Valid) (h l : Nat) (hl : l ≠ 1)
       have e2 : (A ++ BNode.inner lv lk lc :: BNode.inner cv ck cc :: B)[A.length + 1]? = some (.inner cv ck cc) := by simp
       have e3 : (KA ++ sep :: KB)[A.length + 1 - 1]? = some sep := by simp [← hKA']
       refine ⟨{ keys := KA ++ sep :: KB, kids := A ++ .inner lv (lk ++ sep :: ck) (lc ++ cc) :: .inner lv [] [] :: B, fixmerge := true },
-        KA ++ KB, A ++ .inner lv (lk ++ sep :: ck) (lc ++ cc) :: B, 0, 1, ?_, rfl, ?_, ?_⟩
+        KA ++ KB, A ++ .inner lv (lk ++ sep :: ck) (lc ++ cc) :: B, 0, 1, ?_, rfl, ?_, ?_, ?_⟩
       · simp only [applyFix, Nat.add_one_ne_zero, if_false, e1, e2, e3]
         simp
       · rw [fixMerge_pair l A B KA KB sep _ _ (A.length + 1) (Or.inr rfl)
@@ -354,6 +413,31 @@ theorem rebalance_inner (p : Params K) (pv : p.Valid) (h l : Nat) (hl : l ≠ 1)
         · simp only [List.length_append, List.length_cons]; omega
         · simp [sumMap, leafCount, List.sum_append]; omega
         · simp [sumMap, innerCount, List.sum_append]; omega
+      · intro sw hss hso
+        have hXso : SepOk p (h + 1) (.inner lv lk lc) := hso _ (by simp)
+        have hYso : SepOk p (h + 1) (.inner cv ck cc) := hso _ (by simp)
+        simp only [SepOk] at hXso hYso
+        obtain ⟨_, hfitX, _⟩ := (sepSeq_pair p (h + 1) A B KA KB sep _ _ hKA').mp hss
+        have hYne : cc.flatMap (flatten h) ≠ [] := flatMap_flatten_ne_nil p pv h cc hcc (by
+          intro hh; subst hh; simp at hca)
+        have h1 := sep_after_merge p (h + 1) A B KA KB sep (.inner lv lk lc) (.inner cv ck cc)
+          (.inner lv (lk ++ sep :: ck) (lc ++ cc)) hKA'
+          (by simp only [flatten, List.flatMap_append]; exact getLast?_append_of_ne_nil _ _ hYne) hss
+        refine ⟨h1, ?_⟩
+        intro x hx
+        simp only [List.mem_append, List.mem_cons] at hx
+        rcases hx with hx | hx | hx
+        · exact hso x (by simp [hx])
+        · subst hx
+          simp only [SepOk]
+          refine ⟨sepSeq_glue p h lk ck lc cc sep lv _ rfl hla
+            (fun c hc => flatten_ne_nil p pv h c (hlc c hc)) hXso.1 hfitX hYso.1, ?_⟩
+          intro y hy
+          rcases List.mem_append.mp hy with hy | hy
+          · exact hXso.2 y hy
+          · exact hYso.2 y hy
+        · exact hso x (by simp [hx])
+
     | mergeR =>
       obtain ⟨R, hR, hRu⟩ := hfo
       obtain ⟨rv, rk, rc, rfl, hrv, hra, hr1, hr2, hrc⟩ := shapeS_inner (hsh (slot + 1) R hR (by omega))
@@ -368,7 +452,7 @@ theorem rebalance_inner (p : Params K) (pv : p.Valid) (h l : Nat) (hl : l ≠ 1)
       have e2 : (A ++ BNode.inner cv ck cc :: BNode.inner rv rk rc :: B)[A.length + 1]? = some (.inner rv rk rc) := by simp
       have e3 : (KA ++ sep :: KB)[A.length]? = some sep := by simp [← hKA]
       refine ⟨{ keys := KA ++ sep :: KB, kids := A ++ .inner cv (ck ++ sep :: rk) (cc ++ rc) :: .inner cv [] [] :: B, fixmerge := true },
-        KA ++ KB, A ++ .inner cv (ck ++ sep :: rk) (cc ++ rc) :: B, 0, 1, ?_, rfl, ?_, ?_⟩
+        KA ++ KB, A ++ .inner cv (ck ++ sep :: rk) (cc ++ rc) :: B, 0, 1, ?_, rfl, ?_, ?_, ?_⟩
       · simp only [applyFix, e1, e2, e3]
         simp
       · rw [fixMerge_pair l A B KA KB sep _ _ A.length (Or.inl rfl)
@@ -392,6 +476,31 @@ theorem rebalance_inner (p : Params K) (pv : p.Valid) (h l : Nat) (hl : l ≠ 1)
         · simp only [List.length_append, List.length_cons]; omega
         · simp [sumMap, leafCount, List.sum_append]; omega
         · simp [sumMap, innerCount, List.sum_append]; omega
+      · intro sw hss hso
+        have hXso : SepOk p (h + 1) (.inner cv ck cc) := hso _ (by simp)
+        have hYso : SepOk p (h + 1) (.inner rv rk rc) := hso _ (by simp)
+        simp only [SepOk] at hXso hYso
+        obtain ⟨_, hfitX, _⟩ := (sepSeq_pair p (h + 1) A B KA KB sep _ _ hKA).mp hss
+        have hYne : rc.flatMap (flatten h) ≠ [] := flatMap_flatten_ne_nil p pv h rc hrc (by
+          intro hh; subst hh; simp at hra)
+        have h1 := sep_after_merge p (h + 1) A B KA KB sep (.inner cv ck cc) (.inner rv rk rc)
+          (.inner cv (ck ++ sep :: rk) (cc ++ rc)) hKA
+          (by simp only [flatten, List.flatMap_append]; exact getLast?_append_of_ne_nil _ _ hYne) hss
+        refine ⟨h1, ?_⟩
+        intro x hx
+        simp only [List.mem_append, List.mem_cons] at hx
+        rcases hx with hx | hx | hx
+        · exact hso x (by simp [hx])
+        · subst hx
+          simp only [SepOk]
+          refine ⟨sepSeq_glue p h ck rk cc rc sep cv _ rfl hca
+            (fun c hc => flatten_ne_nil p pv h c (hcc c hc)) hXso.1 hfitX hYso.1, ?_⟩
+          intro y hy
+          rcases List.mem_append.mp hy with hy | hy
+          · exact hXso.2 y hy
+          · exact hYso.2 y hy
+        · exact hso x (by simp [hx])
+
     | shiftL =>
       obtain ⟨R, hR, hRu⟩ := hfo
       obtain ⟨rv, rk, rc, rfl, hrv, hra, hr1, hr2, hrc⟩ := shapeS_inner (hsh (slot + 1) R hR (by omega))
@@ -413,7 +522,7 @@ theorem rebalance_inner (p : Params K) (pv : p.Valid) (h l : Nat) (hl : l ≠ 1)
                 kids := A ++ .inner cv (ck ++ sep :: rk.take (n - 1)) (cc ++ rc.take n) :: .inner rv (rk.drop n) (rc.drop n) :: B },
         (KA ++ sep :: KB).set A.length rk[n - 1],
         A ++ .inner cv (ck ++ sep :: rk.take (n - 1)) (cc ++ rc.take n) :: .inner rv (rk.drop n) (rc.drop n) :: B,
-        0, 0, ?_, rfl, by simp [fixMerge], ?_⟩
+        0, 0, ?_, rfl, by simp [fixMerge], ?_, ?_⟩
       · simp only [applyFix, e1, e2, e3, hn]
         rw [if_neg (by omega), List.getElem?_eq_getElem hup]
         simp
@@ -448,6 +557,39 @@ theorem rebalance_inner (p : Params K) (pv : p.Valid) (h l : Nat) (hl : l ≠ 1)
           have := sumMap_take_add_drop (innerCount h) rc n
           simp only [sumMap] at this
           omega
+      · intro sw hss hso
+        have hXso : SepOk p (h + 1) (.inner cv ck cc) := hso _ (by simp)
+        have hYso : SepOk p (h + 1) (.inner rv rk rc) := hso _ (by simp)
+        simp only [SepOk] at hXso hYso
+        obtain ⟨_, hfitX, _⟩ := (sepSeq_pair p (h + 1) A B KA KB sep _ _ hKA).mp hss
+        have hn3 : n - 1 + 1 = n := by omega
+        have hupfit : SepFits p (h + 1) rk[n - 1] (.inner cv (ck ++ sep :: rk.take (n - 1)) (cc ++ rc.take n)) := by
+          have := last_flatMap_take_fits p h rk rc (n - 1) rk[n - 1] hYso.1 (List.getElem?_eq_getElem hup) (by omega)
+            (cc.flatMap (flatten h))
+          rw [hn3] at this
+          simpa [SepFits, flatten, List.flatMap_append] using this
+        have hl' : (flatten (h + 1) (BNode.inner rv (rk.drop n) (rc.drop n))).getLast? =
+            (flatten (h + 1) (BNode.inner rv rk rc)).getLast? := by
+          simp only [flatten]
+          exact last_flatMap_drop p pv h rc n hrc (by omega)
+        refine ⟨sep_after_shift p (h + 1) A B KA KB sep rk[n - 1] _ _ _ _ hKA hupfit hl' hss, ?_⟩
+        intro x hx
+        simp only [List.mem_append, List.mem_cons] at hx
+        rcases hx with hx | hx | hx | hx
+        · exact hso x (by simp [hx])
+        · subst hx
+          simp only [SepOk]
+          refine ⟨sepSeq_glue p h ck (rk.take (n - 1)) cc (rc.take n) sep cv _ rfl hca
+            (fun c hc => flatten_ne_nil p pv h c (hcc c hc)) hXso.1 hfitX (sepSeq_take p h rk rc _ _ hYso.1), ?_⟩
+          intro y hy
+          rcases List.mem_append.mp hy with hy | hy
+          · exact hXso.2 y hy
+          · exact hYso.2 y (List.mem_of_mem_take hy)
+        · subst hx
+          simp only [SepOk]
+          exact ⟨sepSeq_drop p h rk rc n hYso.1, fun y hy => hYso.2 y (List.mem_of_mem_drop hy)⟩
+        · exact hso x (by simp [hx])
+
     | shiftR =>
       obtain ⟨hs0, L, hL, hLu⟩ := hfo
       obtain ⟨lv, lk, lc, rfl, hlv, hla, hl1, hl2, hlc⟩ := shapeS_inner (hsh (slot - 1) L hL (by omega))
@@ -472,7 +614,7 @@ theorem rebalance_inner (p : Params K) (pv : p.Valid) (h l : Nat) (hl : l ≠ 1)
         (KA ++ sep :: KB).set (A.length + 1 - 1) lk[lk.length - n],
         A ++ .inner lv (lk.take (lk.length - n)) (lc.take (lk.length - n + 1)) ::
                   .inner cv (lk.drop (lk.length - n + 1) ++ sep :: ck) (lc.drop (lk.length - n + 1) ++ cc) :: B,
-        0, 0, ?_, rfl, by simp [fixMerge], ?_⟩
+        0, 0, ?_, rfl, by simp [fixMerge], ?_, ?_⟩
       · simp only [applyFix, Nat.add_one_ne_zero, if_false, e1, e2, e3, hn]
         rw [if_neg (by omega), List.getElem?_eq_getElem hup]
         simp
@@ -507,5 +649,47 @@ theorem rebalance_inner (p : Params K) (pv : p.Valid) (h l : Nat) (hl : l ≠ 1)
           have := sumMap_take_add_drop (innerCount h) lc (lk.length - n + 1)
           simp only [sumMap] at this
           omega
+      · intro sw hss hso
+        have hXso : SepOk p (h + 1) (.inner lv lk lc) := hso _ (by simp)
+        have hYso : SepOk p (h + 1) (.inner cv ck cc) := hso _ (by simp)
+        simp only [SepOk] at hXso hYso
+        obtain ⟨_, hfitX, _⟩ := (sepSeq_pair p (h + 1) A B KA KB sep _ _ hKA').mp hss
+        have hupfit : SepFits p (h + 1) lk[lk.length - n]
+            (.inner lv (lk.take (lk.length - n)) (lc.take (lk.length - n + 1))) := by
+          have := last_flatMap_take_fits p h lk lc (lk.length - n) lk[lk.length - n] hXso.1
+            (List.getElem?_eq_getElem hup) (by omega) []
+          simpa [SepFits, flatten] using this
+        have hYne : cc.flatMap (flatten h) ≠ [] := flatMap_flatten_ne_nil p pv h cc hcc (by
+          intro hh; subst hh; simp at hca)
+        have hl' : (flatten (h + 1) (BNode.inner cv (lk.drop (lk.length - n + 1) ++ sep :: ck)
+            (lc.drop (lk.length - n + 1) ++ cc))).getLast? = (flatten (h + 1) (BNode.inner cv ck cc)).getLast? := by
+          simp only [flatten, List.flatMap_append]
+          exact getLast?_append_of_ne_nil _ _ hYne
+        have := sep_after_shift p (h + 1) A B KA KB sep lk[lk.length - n] _ _ _ _ hKA' hupfit hl' hss
+        refine ⟨by simpa using this, ?_⟩
+        intro x hx
+        simp only [List.mem_append, List.mem_cons] at hx
+        rcases hx with hx | hx | hx | hx
+        · exact hso x (by simp [hx])
+        · subst hx
+          simp only [SepOk]
+          exact ⟨sepSeq_take p h lk lc _ _ hXso.1, fun y hy => hXso.2 y (List.mem_of_mem_take hy)⟩
+        · subst hx
+          simp only [SepOk]
+          have hfitD : SepFits p (h + 1) sep (.inner lv (lk.drop (lk.length - n + 1)) (lc.drop (lk.length - n + 1))) := by
+            obtain ⟨e, he, hq⟩ := hfitX
+            refine ⟨e, ?_, hq⟩
+            simp only [flatten] at he ⊢
+            rw [last_flatMap_drop p pv h lc (lk.length - n + 1) hlc (by omega)]
+            exact he
+          refine ⟨sepSeq_glue p h (lk.drop (lk.length - n + 1)) ck (lc.drop (lk.length - n + 1)) cc sep lv _ rfl
+            (by simp only [List.length_drop]; omega)
+            (fun c hc => flatten_ne_nil p pv h c (hlc c (List.mem_of_mem_drop hc)))
+            (sepSeq_drop p h lk lc _ hXso.1) hfitD hYso.1, ?_⟩
+          intro y hy
+          rcases List.mem_append.mp hy with hy | hy
+          · exact hXso.2 y (List.mem_of_mem_drop hy)
+          · exact hYso.2 y hy
+        · exact hso x (by simp [hx])
 
 end TlxVerif.C01
